@@ -34,6 +34,11 @@ func (r *revisionReconciler) Reconcile(
 	if len(objectSet.GetPrevious()) == 0 {
 		// no previous revision(s) specified, default to revision 1
 		objectSet.SetRevision(1)
+		// Report it right away, like below: the ObjectDeployment delays every action until all
+		// of its ObjectSets report a revision, and later steps of this pass may keep failing.
+		if err := r.client.Status().Update(ctx, objectSet.ClientObject()); err != nil {
+			return res, fmt.Errorf("update revision in status: %w", err)
+		}
 		return
 	}
 
